@@ -105,3 +105,10 @@ Theorem C13_rpc_close_frame_always_reachable : forall strict ls s, rrun strict r
   exists l, In l [SFinH; SCloseGo; SRejGo] /\ exists s', rstep strict s (LV l) = Some s'.
 Proof. exact rpc_close_frame_always_reachable. Qed.
 Print Assumptions C13_rpc_close_frame_always_reachable.
+(* many RPCs on one tunnel: each stream's frames, picked out of the shared carrier by id, conform *)
+From GT Require Import MultiRpc MultiRpcProofs.
+Theorem C13_multi_streams_conform : forall strict n ls m i,
+  mrun strict (m_init n) ls = Some m -> i < n ->
+  gc_run (proj i (mh_c m)) <> GcBad /\ gs_run (proj i (mh_s m)) <> GsBad /\ count_close (proj i (mh_s m)) <= 1.
+Proof. exact multi_streams_conform. Qed.
+Print Assumptions C13_multi_streams_conform.
